@@ -15,7 +15,8 @@ def run(tier, seed, replay=None):
     run = Run("C04", tier, seed, RULE)
     drv = Driver()
     exp = {}
-    cases = [replay["case"]] if replay else \
+    from harness.common import corpus_cases
+    cases = [replay["case"]] if replay else corpus_cases("C04") + \
         [rc.make_case(run.rng, tier, damage=True, max_damage=3)
          for _ in range(200 if tier == "quick" else 1500)]
     for case in cases:
